@@ -31,7 +31,12 @@ def generate(seed, tier):
     only_av = rng.random() < 0.5
     ops = gen_dispatch_ops(rng, n_ops(spec), p_query=0.05, p_reset=0.02, src_av=1.0 if only_av else 0.5)
     comps = [[rng.choice(FILTERS) for _ in range(rng.randint(2, 3))] for _ in range(rng.randint(1, 2))]
-    return {"prop": PROP, "cfg": {"instance": spec, "filter": names, "filter_style": style,
+    obs = []
+    ro = stream(seed, "c07-observers")
+    if ro.random() < 0.25:
+        # observers that ask the dispatcher questions while they are updated and reset (their answers go through the filter)
+        obs = [{"t": t, "ft": None} for t in ("is_ready", "earliest_start_time", "is_scheduled") if ro.random() < 0.6]
+    return {"prop": PROP, "cfg": {"instance": spec, "filter": names, "filter_style": style, "observers": obs, "observers_fixed": True,
                                   "compositions": comps, "comp_style": rng.choice(["name", "enum", "callable", "mixed", "generator", "tuple"]),
                                   "sub_seed": rng.randrange(1 << 30), "only_available": only_av}, "ops": ops}
 
